@@ -403,6 +403,12 @@ class World:
             t = mod.__dict__.get("time")
             if t is _time:
                 mod.time = self.clock
+            # `from time import time / perf_counter / monotonic` style: the function objects
+            for attr, val in list(mod.__dict__.items()):
+                if val is _time.time or val is _time.perf_counter or val is _time.monotonic:
+                    setattr(mod, attr, self.clock.time)
+                elif val is _time.sleep:
+                    setattr(mod, attr, self.clock.sleep)
 
     def _install_rng_recorder(self):
         world = self
